@@ -261,17 +261,42 @@ def r4(ctx):
         yield PASS("C01-R4", "canonical_request/header-values", "values <= self.headers.get(signed header) appended in the loop", [site(b, values[0], "value")])
         # every value yielded by the inner iteration is appended: the append post-dominates the Some-edge of the
         # innermost Iterator::next that produces the value
-        vb = values[0]
-        vt = b.term(vb)
-        vsl = b.slice_op([a for i, a in enumerate(vt["args"])][1])
-        nexts = [(nb, nt) for nb, nt in vsl.find_calls(r"Iterator::next$") if "Enumerate" in nt.get("resolved_full", "") or "slice::Iter" in nt.get("resolved_full", "")]
-        inner = [x for x in nexts if all(b.dominates(o[0], x[0]) for o in nexts)]
-        okv = False
-        if inner:
+        def value_iter_some(vb_):
+            """Some-edge block of the innermost value iteration feeding the append at vb_ (None if it is not fed by one)."""
+            vsl_ = b.slice_op(b.term(vb_)["args"][1])
+            nexts = [(nb, nt) for nb, nt in vsl_.find_calls(r"Iterator::next$") if re.search(r"Iter<'_, std::vec::Vec<u8>>", nt.get("resolved_full", ""))]
+            inner = [x for x in nexts if all(b.dominates(o[0], x[0]) for o in nexts)]
+            if not inner:
+                return None, vsl_
             st = b.term(inner[0][1]["target"])
-            if st["k"] == "switch":
-                some = [bb for v, bb in st["targets"] if v == 1]
-                okv = bool(some) and b.postdominates(vb, some[0])
+            some = [bb for v, bb in st["targets"] if v == 1] if st["k"] == "switch" else []
+            return (some[0] if some else None), vsl_
+
+        def sf_parts(sl_):
+            return {int(fs[1]) for l_, fs in sl_.fieldreads if len(fs) >= 2 and fs[0] == "0" and fs[1] in ("0", "1") and b.slice([l_]).has_call(r"slice::<impl \[T\]>::split_first$")}
+
+        loops = []
+        firsts = []
+        for vb_ in values:
+            some, vsl_ = value_iter_some(vb_)
+            if some is not None:
+                loops.append((vb_, some, vsl_))
+            else:
+                firsts.append((vb_, vsl_))
+        okv = False
+        vb = values[0]
+        for vb_, some, vsl_ in loops:
+            if not b.postdominates(vb_, some):
+                continue
+            if not vsl_.has_call(r"split_first$|split_at$|split_last$|Iterator::(skip|take|step_by|skip_while|take_while|filter|filter_map)$|slice::<impl \[T\]>::(first|last|get)$"):
+                okv, vb = True, vb_  # the loop runs over the whole value list
+            elif sf_parts(vsl_) == {1} and not vsl_.has_call(r"Iterator::(skip|take|step_by|skip_while|take_while|filter|filter_map)$"):
+                # sibling idiom `if let Some((first, rest)) = values.split_first()`: first appended on the Some edge, rest in the loop
+                sfc = vsl_.find_calls(r"slice::<impl \[T\]>::split_first$")
+                st = b.term(sfc[0][1]["target"]) if sfc else None
+                sm = [bb for v, bb in st["targets"] if v == 1] if st and st["k"] == "switch" else []
+                if sm and any(sf_parts(fsl) == {0} and b.postdominates(fb, sm[0]) for fb, fsl in firsts):
+                    okv, vb = True, vb_
         if not okv:
             yield VIOL("C01-R4", "canonical_request/header-values-all", "not every value of a signed header is appended (the append does not post-dominate the iteration's Some edge)", where=b.span_of_block(vb))
         else:
